@@ -160,6 +160,8 @@ class LintGen(F.Gen):
                 "msg_ = 'a .lt. b'", 'msg_ = "p.GE.q"', "msg_ = 'it''s .eq. here'",
                 f"if (msg_ {eq} 'p .eq. q') msg_ = 'r .ne. s'   ! s .gt. t",
                 '\x02! t .ge. 1', '\x02!.LT.', "\x02! 'k .eq. 1'"]
+        if self.profile == 'ub':
+            del pool[6]       # keeps one profile free of the code+string mix (exercises the UBOUND fixer on its own)
         return [{'s': 'raw', 'text': rng.choice(pool)} for _ in range(rng.randint(3, 6))]
 
     def program(self, nstmts=6, depth=2):
